@@ -371,3 +371,100 @@ def h_td_values(i, j):
     for k, v in (VALS[i], VALS[j]):
         check(d[k] == v, 'verify() changed %s: %r -> %r', k, v, d[k])
     _roundtrip(d, rp.TaskDescription)
+
+
+# ------------------------------------------------------------------------------
+# D3b: several functions encoded one after the other (same module / qualname:
+# closures of one factory, a re-defined function): each decodes to *its* function
+#
+def _make_scaler(factor):
+    def scale(x):
+        return x * factor + 1
+    return scale
+
+
+@obligation(params={'via': (0, 1), 'order': (0, 5)},
+            timeout={'quick': 300, 'thorough': 600},
+            funcs=['radical/pilot/pytask.py:PythonTask.__new__',
+                   'radical/pilot/pytask.py:PythonTask.get_func_attr',
+                   'radical/pilot/pytask.py:PythonTask.pythontask'],
+            bounds='three closures of one factory (same module and qualified '
+                   'name) encoded in any of the 6 orders via PythonTask or the '
+                   'decorator, each decoded afterwards')
+def h_pytask_sequence(via, order):
+    """what was encoded earlier does not leak into a later encoding"""
+    import itertools
+    via, order = conc(via, 0, 1), conc(order, 0, 5)
+    perm  = list(itertools.permutations([2, 3, 10]))[order]
+    encs  = []
+    for f in perm:
+        fn = _make_scaler(f)
+        if via == 0: encs.append((f, real(rp.PythonTask, fn, (5,), {})))
+        else:        encs.append((f, real(rp.PythonTask.pythontask(fn), 5)))
+    reach()
+    for f, enc in encs:
+        func, a, kw = real(rp.PythonTask.get_func_attr, enc)
+        got = func(*a, **(kw or {}))
+        check(got == 5 * f + 1, 'function with factor %s encoded %s in the '
+              'sequence %s decodes to a call returning %s, expected %s',
+              f, perm.index(f) + 1, perm, got, 5 * f + 1)
+
+
+# ------------------------------------------------------------------------------
+# D1d: explicitly set scalar attributes keep their value through verify()
+#
+SCALARS = [('use_mpi', False), ('use_mpi', True), ('cores_per_rank', 3),
+           ('gpus_per_rank', 0.5), ('threading_type', 'OpenMP'),
+           ('gpu_type', 'CUDA'), ('lfs_per_rank', 7), ('mem_per_rank', 9),
+           ('priority', 2), ('stdout', 'o.txt'), ('stderr', 'e.txt'),
+           ('sandbox', 'sbox'), ('named_env', 've0'), ('restartable', True),
+           ('cleanup', True), ('pilot', 'pilot.0007'), ('startup_timeout', 4.0),
+           ('timeout', 0.0), ('name', 'n0'), ('ranks', 1)]
+
+
+@obligation(params={'s': (0, len(SCALARS) - 1), 'rk': (0, 4), 'md': (0, 3)},
+            shapes={'quick': [{'_ranges': {'md': (0, 1)}}], 'thorough': [{}]},
+            partition={'quick': ('s', len(SCALARS)),
+                       'thorough': ('s', len(SCALARS))},
+            timeout={'quick': 300, 'thorough': 600},
+            funcs=['radical/pilot/task_description.py:TaskDescription._verify'],
+            bounds='one of 20 explicitly set scalar attribute values (both '
+                   'truth values of use_mpi, fractional GPUs, zero time-out, '
+                   '...) x rank count unset / ranks 2 / ranks 4 / deprecated '
+                   'cpu_processes 2 / 4 x 4 task modes (quick: executable and '
+                   'function mode)')
+def h_td_scalars(s, rk, md):
+    """verify() keeps every explicitly set scalar, whatever else is set"""
+    s, rk, md = conc(s, 0, len(SCALARS) - 1), conc(rk, 0, 4), conc(md, 0, 3)
+    key, val = SCALARS[s]
+    mode = [rp.TASK_EXECUTABLE, rp.TASK_FUNCTION, rp.TASK_PROC,
+            rp.TASK_SHELL][md]
+    fd = {'uid': 't0', 'mode': mode}
+    fd.update({rp.TASK_EXECUTABLE: {'executable': '/bin/true'},
+               rp.TASK_FUNCTION  : {'function': 'f'},
+               rp.TASK_PROC      : {'executable': '/bin/true'},
+               rp.TASK_SHELL     : {'command': 'true'}}[mode])
+    ranks = None
+    if rk and key != 'ranks':
+        ranks = [2, 4, 2, 4][rk - 1]
+        fd['ranks' if rk <= 2 else 'cpu_processes'] = ranks
+    fd[key] = val
+    d = rp.TaskDescription(from_dict=dict(fd))
+    try:
+        d.verify()
+    except ValueError as e:
+        # a combination the mode does not support (e.g. named_env for function
+        # tasks) is refused: nothing is lost silently
+        trace('refused', repr(e))
+        return
+    reach()
+    check(d[key] == val and type(d[key]) == type(val), 'verify() changed the '
+          'explicitly set %s = %r into %r (description %s)', key, val, d[key],
+          fd)
+    if ranks is not None:
+        check(d['ranks'] == ranks, 'ranks %r after verify(), %s requested',
+              d['ranks'], ranks)
+    real(d.verify)
+    check(d[key] == val, 'second verify() changed %s = %r into %r', key, val,
+          d[key])
+    _roundtrip(d, rp.TaskDescription)
